@@ -5,6 +5,7 @@ import (
 	"go/constant"
 	"go/token"
 	"go/types"
+	"sort"
 
 	"golang.org/x/tools/go/cfg"
 	"golang.org/x/tools/go/types/typeutil"
@@ -314,28 +315,38 @@ type Automaton struct {
 	AtEnd bool
 }
 
-// StateSet is a set of automaton states (0..255).
-type StateSet [4]uint64
+// StateSet is a set of automaton states (small non-negative ints; it grows as needed up to MaxState).
+type StateSet struct{ bits []uint64 }
+
+// MaxState bounds automaton states: a product automaton that exceeds it is a programming error.
+const MaxState = 1 << 16
 
 func (s *StateSet) add(i int) bool {
-	if i < 0 || i >= 256 {
+	if i < 0 || i >= MaxState {
 		panic("automaton state out of range")
 	}
 	w, b := i/64, uint(i%64)
-	if s[w]&(1<<b) != 0 {
+	for len(s.bits) <= w {
+		s.bits = append(s.bits, 0)
+	}
+	if s.bits[w]&(1<<b) != 0 {
 		return false
 	}
-	s[w] |= 1 << b
+	s.bits[w] |= 1 << b
 	return true
 }
 
 // Has reports membership.
-func (s *StateSet) Has(i int) bool { return i >= 0 && i < 256 && s[i/64]&(1<<uint(i%64)) != 0 }
+func (s *StateSet) Has(i int) bool {
+	return i >= 0 && i/64 < len(s.bits) && s.bits[i/64]&(1<<uint(i%64)) != 0
+}
 
 func (s *StateSet) each(fn func(int)) {
-	for i := 0; i < 256; i++ {
-		if s[i/64]&(1<<uint(i%64)) != 0 {
-			fn(i)
+	for w, word := range s.bits {
+		for b := 0; word != 0; b, word = b+1, word>>1 {
+			if word&1 != 0 {
+				fn(w*64 + b)
+			}
 		}
 	}
 }
@@ -447,7 +458,7 @@ func RecvNamed(f *types.Func) *types.Named {
 
 // IsFunc reports whether f is the package-level function pkgPath.name.
 func IsFunc(f *types.Func, pkgPath, name string) bool {
-	if f == nil || f.Pkg() == nil || f.Name() != name || f.Pkg().Path() != pkgPath {
+	if f == nil || f.Pkg() == nil || OldName(f) != name || f.Pkg().Path() != pkgPath {
 		return false
 	}
 	sig, _ := f.Type().(*types.Signature)
@@ -457,7 +468,7 @@ func IsFunc(f *types.Func, pkgPath, name string) bool {
 // IsMethod reports whether f is method name on the named type pkgPath.typ
 // (typ == "" matches any receiver type of that package; pkgPath == "" any package).
 func IsMethod(f *types.Func, pkgPath, typ, name string) bool {
-	if f == nil || f.Name() != name {
+	if f == nil || OldName(f) != name {
 		return false
 	}
 	n := RecvNamed(f)
@@ -767,9 +778,6 @@ func TrackNil(info *types.Info, obj types.Object, a *Automaton) *Automaton {
 		if inner < 0 {
 			return inner
 		}
-		if inner >= 85 {
-			panic("TrackNil: inner automaton state out of range")
-		}
 		return inner*3 + k
 	}
 	return &Automaton{
@@ -875,6 +883,273 @@ func wrapBlock(a *Automaton, enc func(inner, k int) int) func(int, *cfg.Block) i
 			return inner
 		}
 		return enc(inner, st%3)
+	}
+}
+
+// TrackVals wraps an automaton so that it also follows, along every path, what is known about a few local variables
+// that are only ever assigned simple values: booleans assigned true / false (or tested), pointers, interfaces, maps,
+// slices and funcs assigned nil or a freshly built value (or tested against nil).  Edges whose condition contradicts
+// what is known are infeasible.  This makes `ignore = true; …; if ignore { return }` equivalent to the early return it
+// stands for.  Variables assigned inside function literals or whose address is taken are not tracked.
+func TrackVals(info *types.Info, body ast.Node, a *Automaton) *Automaton {
+	const (
+		unknown = iota
+		yes     // true / non-nil
+		no      // false / nil
+	)
+	// candidates: locals with at least one assignment from a constant true/false or nil
+	cand := map[types.Object]bool{}
+	bad := map[types.Object]bool{}
+	classify := func(rhs ast.Expr) int {
+		switch {
+		case rhs == nil:
+			return unknown
+		case IsNil(info, rhs):
+			return no
+		}
+		if cv := ConstOf(info, rhs); cv != nil && cv.Kind() == constant.Bool {
+			if constant.BoolVal(cv) {
+				return yes
+			}
+			return no
+		}
+		switch x := unparen(rhs).(type) {
+		case *ast.UnaryExpr:
+			if _, ok := unparen(x.X).(*ast.CompositeLit); ok && x.Op == token.AND {
+				return yes
+			}
+		case *ast.CallExpr:
+			if b, ok := ObjOf(info, x.Fun).(*types.Builtin); ok && (b.Name() == "new" || b.Name() == "make") {
+				return yes
+			}
+		case *ast.FuncLit:
+			return yes
+		}
+		if NonNilErrorExpr(info, rhs) {
+			return yes
+		}
+		return unknown
+	}
+	var walk func(n ast.Node, inLit bool)
+	walk = func(n ast.Node, inLit bool) {
+		ast.Inspect(n, func(x ast.Node) bool {
+			switch y := x.(type) {
+			case *ast.FuncLit:
+				if !inLit {
+					walk(y.Body, true)
+					return false
+				}
+			case *ast.AssignStmt:
+				for i, l := range y.Lhs {
+					o := ObjOf(info, l)
+					if _, isId := unparen(l).(*ast.Ident); !isId || o == nil {
+						continue
+					}
+					if inLit {
+						bad[o] = true
+					}
+					if len(y.Lhs) == len(y.Rhs) && classify(y.Rhs[i]) != unknown {
+						cand[o] = true
+					}
+				}
+			case *ast.UnaryExpr:
+				if y.Op == token.AND {
+					if o := ObjOf(info, y.X); o != nil {
+						bad[o] = true
+					}
+				}
+			case *ast.IncDecStmt:
+				if o := ObjOf(info, y.X); o != nil {
+					bad[o] = true
+				}
+			case *ast.RangeStmt:
+				for _, e := range []ast.Expr{y.Key, y.Value} {
+					if e != nil {
+						if o := ObjOf(info, e); o != nil {
+							bad[o] = true
+						}
+					}
+				}
+			}
+			return true
+		})
+	}
+	walk(body, false)
+	var objs []types.Object
+	for o := range cand {
+		if v, ok := o.(*types.Var); ok && !bad[o] && !v.IsField() {
+			objs = append(objs, o)
+		}
+	}
+	sort.Slice(objs, func(i, j int) bool { return ObjPos(objs[i]) < ObjPos(objs[j]) })
+	if len(objs) > 5 {
+		objs = objs[:5]
+	}
+	if len(objs) == 0 {
+		return a
+	}
+	idx := map[types.Object]int{}
+	pow := 1
+	for i, o := range objs {
+		idx[o] = i
+		pow *= 3
+	}
+	get := func(v, i int) int {
+		for ; i > 0; i-- {
+			v /= 3
+		}
+		return v % 3
+	}
+	set := func(v, i, k int) int {
+		m := 1
+		for j := 0; j < i; j++ {
+			m *= 3
+		}
+		return v - get(v, i)*m + k*m
+	}
+	zero := func(o types.Object) int {
+		switch u := o.Type().Underlying().(type) {
+		case *types.Basic:
+			if u.Info()&types.IsBoolean != 0 {
+				return no
+			}
+			return unknown
+		case *types.Pointer, *types.Interface, *types.Map, *types.Slice, *types.Signature, *types.Chan:
+			return no
+		}
+		return unknown
+	}
+	assign := func(v int, lhs, rhs ast.Expr) int {
+		o := ObjOf(info, lhs)
+		i, tracked := idx[o]
+		if _, isId := unparen(lhs).(*ast.Ident); !isId || !tracked {
+			return v
+		}
+		if rhs != nil && ObjOf(info, rhs) == o {
+			return v
+		}
+		if rhs != nil {
+			if j, ok := idx[ObjOf(info, rhs)]; ok {
+				if _, isId := unparen(rhs).(*ast.Ident); isId {
+					return set(v, i, get(v, j))
+				}
+			}
+		}
+		return set(v, i, classify(rhs))
+	}
+	return &Automaton{
+		Init:  a.Init * pow,
+		AtEnd: a.AtEnd,
+		Block: func() func(int, *cfg.Block) int {
+			if a.Block == nil {
+				return nil
+			}
+			return func(st int, b *cfg.Block) int {
+				inner := a.Block(st/pow, b)
+				if inner < 0 {
+					return inner
+				}
+				return inner*pow + st%pow
+			}
+		}(),
+		Node: func(st int, n ast.Node) int {
+			inner, v := st/pow, st%pow
+			inner = a.Node(inner, n)
+			if inner < 0 {
+				return inner
+			}
+			switch x := n.(type) {
+			case *ast.AssignStmt:
+				if len(x.Lhs) == len(x.Rhs) {
+					// right-hand sides are evaluated before any assignment
+					nv := v
+					for i := range x.Lhs {
+						o := ObjOf(info, x.Lhs[i])
+						if k, tracked := idx[o]; tracked {
+							if _, isId := unparen(x.Lhs[i]).(*ast.Ident); isId {
+								val := unknown
+								if j, ok := idx[ObjOf(info, x.Rhs[i])]; ok {
+									if _, isId := unparen(x.Rhs[i]).(*ast.Ident); isId {
+										val = get(v, j)
+									}
+								} else {
+									val = classify(x.Rhs[i])
+								}
+								nv = set(nv, k, val)
+							}
+						}
+					}
+					v = nv
+				} else {
+					for _, l := range x.Lhs {
+						v = assign(v, l, nil)
+					}
+				}
+			case *ast.DeclStmt:
+				if gd, ok := x.Decl.(*ast.GenDecl); ok {
+					for _, sp := range gd.Specs {
+						vs, ok := sp.(*ast.ValueSpec)
+						if !ok {
+							continue
+						}
+						for i, nm := range vs.Names {
+							if k, tracked := idx[info.Defs[nm]]; tracked {
+								if i < len(vs.Values) && len(vs.Values) == len(vs.Names) {
+									v = set(v, k, classify(vs.Values[i]))
+								} else if len(vs.Values) == 0 {
+									v = set(v, k, zero(info.Defs[nm]))
+								} else {
+									v = set(v, k, unknown)
+								}
+							}
+						}
+					}
+				}
+			}
+			return inner*pow + v
+		},
+		Edge: func(st int, facts []Fact) (int, bool) {
+			inner, v := st/pow, st%pow
+			for _, f := range facts {
+				if f.Tag != nil {
+					continue
+				}
+				if id, ok := unparen(f.Expr).(*ast.Ident); ok {
+					if k, tracked := idx[ObjOf(info, id)]; tracked {
+						want := no
+						if f.Val {
+							want = yes
+						}
+						if cur := get(v, k); cur != unknown && cur != want {
+							return st, false
+						}
+						v = set(v, k, want)
+					}
+				}
+				if e, nonNil, ok := NilTest(info, f); ok {
+					if k, tracked := idx[ObjOf(info, e)]; tracked {
+						if _, isId := unparen(e).(*ast.Ident); isId {
+							want := no
+							if nonNil {
+								want = yes
+							}
+							if cur := get(v, k); cur != unknown && cur != want {
+								return st, false
+							}
+							v = set(v, k, want)
+						}
+					}
+				}
+			}
+			if a.Edge != nil {
+				var ok bool
+				inner, ok = a.Edge(inner, facts)
+				if !ok {
+					return st, false
+				}
+			}
+			return inner*pow + v, true
+		},
 	}
 }
 
